@@ -576,3 +576,110 @@ def c10lag(rec):
     except Exception as ex:  # noqa
         out.append(_verdict("C10", "declined_error", "naive_lazy:" + type(ex).__name__, str(ex)[:100], sig=sig))
     return out
+
+
+# ---------------------------------------------------------------------------
+# C11: adjoints
+
+def c11(rec):
+    """C11: forward value equals ordinary evaluation; the adjoint returned for each leaf
+    equals the semiring derivative TLC computed (structural derivative, checked in the model
+    against the definitional form); with and without the optimizer."""
+    from funsor.adjoint import forward_backward
+    from funsor.optimizer import apply_optimizer
+    exp = rec["exp"]
+    plus, times = fbuild.ASSOC[rec["plus"]], fbuild.ASSOC[rec["times"]]
+    out = []
+    cache = {}
+    b = fbuild.Builder()
+    b.leaf_cache = cache
+    try:
+        with lazy:
+            x = b.build(rec["t"])
+    except Exception as e:  # noqa
+        return [_verdict("C11", "declined_error", "build:" + type(e).__name__)]
+    variants = [("plain", x)]
+    try:
+        with lazy:
+            variants.append(("optimized", apply_optimizer(x)))
+    except Exception as e:  # noqa
+        out.append(_verdict("C11", "declined_error", "optimizer:" + type(e).__name__))
+    for vname, expr in variants:
+        try:
+            forward, backward = forward_backward(plus, times, expr)
+        except Exception as e:  # noqa
+            out.append(_verdict("C11", "declined_error", "%s_tape:%s" % (vname, type(e).__name__), str(e)[:80]))
+            continue
+        out.append(_eval_check(forward, exp, "C11", vname + "_forward", need_output=False))
+        for a in rec["adj"]:
+            if not a["exp"].get("defined", True):
+                out.append(_verdict("C11", "skipped_undefined"))
+                continue
+            leaf = cache.get(repr(a["leaf"]))
+            if leaf is None:
+                out.append(_verdict("C11", "machinery", "leaf_not_built"))
+                continue
+            try:
+                adj = backward[leaf]
+            except Exception as e:  # noqa
+                out.append(_verdict("C11", "declined_error", "%s_lookup:%s" % (vname, type(e).__name__)))
+                continue
+            v = _eval_check(adj, a["exp"], "C11", vname + "_adjoint", need_output=False)
+            if v["status"] == "mismatch":
+                v["feature"] = "broadcast_under_reduction" if adjoint_broadcast_feature(rec["t"], rec["plus"]) else "none"
+            out.append(v)
+    return out
+
+
+def _free(t):
+    """free input names of a sum-product AST (Ten / Num / Bin / Red / Con only)"""
+    c = t["c"]
+    if c == "Ten":
+        return {n for n, _ in t["ins"]}
+    if c == "Num":
+        return set()
+    if c == "Bin":
+        return _free(t["l"]) | _free(t["r"])
+    if c == "Red":
+        return _free(t["arg"]) - {n for n, _ in t["vars"]}
+    if c == "Con":
+        s = set()
+        for x in t["terms"]:
+            s |= _free(x)
+        return s - {n for n, _ in t["vars"]}
+    return set()
+
+
+def adjoint_broadcast_feature(t, plus):
+    """True iff somewhere a variable is reduced over a subterm that does not mention it:
+    (a) the reduced variable is absent from the whole body, or (b) the body contains a
+    plus-combination one of whose operands lacks the variable.  There the derivative has
+    to account for the multiplicity of the broadcast operand."""
+    def plus_operands_lacking(b, v):
+        if b["c"] == "Bin":
+            if b["op"]["n"] == plus and (v not in _free(b["l"]) or v not in _free(b["r"])):
+                return True
+            return plus_operands_lacking(b["l"], v) or plus_operands_lacking(b["r"], v)
+        if b["c"] == "Con":
+            if b["bin"] == plus and any(v not in _free(x) for x in b["terms"]):
+                return True
+            return any(plus_operands_lacking(x, v) for x in b["terms"])
+        if b["c"] == "Red":
+            return plus_operands_lacking(b["arg"], v)
+        return False
+
+    c = t["c"]
+    if c in ("Ten", "Num"):
+        return False
+    if c == "Bin":
+        return adjoint_broadcast_feature(t["l"], plus) or adjoint_broadcast_feature(t["r"], plus)
+    if c == "Red":
+        body, kids = t["arg"], [t["arg"]]
+    elif c == "Con":
+        body, kids = {"c": "Con", "red": "nullop", "bin": t["bin"], "vars": [], "terms": t["terms"]}, t["terms"]
+    else:
+        return False
+    for v, _ in t["vars"]:
+        if v not in _free(body) or plus_operands_lacking(body, v):
+            return True
+    return any(adjoint_broadcast_feature(k, plus) for k in kids)
